@@ -146,15 +146,21 @@ def strDirectTgts : List Ty := intTys
 theorem C02_table_string_to_int :
     strDirectTgts.all (fun tgt => strIntBodyOK tgt (lookup Gen.convTable tgt (.ty .string))) = true := by decide +kernel
 
-/-- Clauses (a), (b), (c) for EVERY string `w` (numeric or not), with `strconv` as modelled by `goStrconv`:
-    a nil error means `w` is an integer numeral and the result is its value; a canonical numeral that fits converts;
-    "-1" → unsigned, "300" → int8, "1.5", "abc" fail. -/
-theorem C02_string_to_int (tgt : Ty) (ht : tgt ∈ strDirectTgts) (w : String) :
-    specOK tgt (.ty .string) (.s w) (convGo tgt (.ty .string) (.s w)) = true := by
+/-- Clauses (a), (b), (c) for EVERY string `w` (numeric or not) and every `strconv` whose ParseInt / ParseUint / Atoi
+    satisfy their documented contract (`ParseIntContract`): a nil error means `w` is an integer numeral and the result
+    is its value; a canonical numeral that fits converts; "-1" → unsigned, "300" → int8, "1.5", "abc" fail. -/
+theorem C02_string_to_int_contract (sc : Strconv) (hc : ParseIntContract sc) (tgt : Ty) (ht : tgt ∈ strDirectTgts)
+    (w : String) :
+    specOK tgt (.ty .string) (.s w) (conv sc Gen.convTable convFuel tgt (.ty .string) (.s w)) = true := by
   have hall := C02_table_string_to_int
   rw [List.all_eq_true] at hall
-  have := strIntBodyOK_sound Gen.convTable 5 tgt w (hall tgt ht)
-  simpa [specOK, convGo, convFuel] using this
+  have := strIntBodyOK_sound sc hc Gen.convTable 5 tgt w (hall tgt ht)
+  simpa [specOK, convFuel] using this
+
+/-- … in particular for the model the driver runs: `goStrconv` satisfies the contract (`goStrconv_parseInt_contract`). -/
+theorem C02_string_to_int (tgt : Ty) (ht : tgt ∈ strDirectTgts) (w : String) :
+    specOK tgt (.ty .string) (.s w) (convGo tgt (.ty .string) (.s w)) = true :=
+  C02_string_to_int_contract goStrconv goStrconv_parseInt_contract tgt ht w
 
 example : convGo .uint8 (.ty .string) (.s "200") = ⟨.i 200, .ok⟩ := by decide +kernel
 example : (convGo .uint8 (.ty .string) (.s "-1")).err = .other := by decide +kernel
